@@ -15,14 +15,13 @@
 (* Switches (1 = the repaired code, which this spec mirrors; 0 = as found): *)
 (*   FIX_SIZE   buffers sized for the full-resolution render               *)
 (*              (0: aligned bytes of the BINNED shape -> D12)              *)
-(*   FIX_LOCK   rendering (capture of the full-resolution shape, fill, bin2  *)
-(*              passes) is bracketed by streamer.render_lock, which         *)
-(*              simcam_set holds while it replaces properties and buffers:  *)
-(*              set waits for the render in flight and the next render sees *)
-(*              one consistent configuration                                *)
-(*              (0: the shape is captured under im.lock, which is dropped   *)
-(*              before rendering; set can shrink / move the buffers under   *)
-(*              the renderer)                                               *)
+(*   FIX_LOCK   simcam_set waits (streamer.is_rendering / set_pending /     *)
+(*              idle, all under im.lock) until the frame in flight has been *)
+(*              rendered and binned, and the streamer does not begin another *)
+(*              frame while a set is waiting: a frame is always rendered    *)
+(*              with the shape, binning and buffers of one configuration    *)
+(*              (0: the shape is captured under im.lock, the render runs    *)
+(*              unlocked; set can shrink / move the buffers under it)       *)
 (*   FIX_ALIGN  bin2.avx2.c uses unaligned vector loads/stores             *)
 (*              (0: dereferences __m256i*, which needs 32-byte alignment   *)
 (*              that realloc does not promise)                             *)
@@ -84,7 +83,7 @@ Init ==
   /\ req = Defaults /\ res = [st |-> 0, cp |-> 0]
   /\ hist = <<>> /\ lastAct = "Init"
 
-LockFree == spc \in {"off", "top"}         \* no render in flight (repaired: the render lock is free)
+LockFree == spc \in {"off", "top"}         \* no render in flight (is_rendering = 0)
 SpcCode == CASE spc = "off" -> 0 [] spc = "top" -> 1 [] spc = "captured" -> 2 [] OTHER -> 3
 
 Record(op, a) == hist' = Append(hist, [op |-> op, a |-> a, at |-> SpcCode, x |-> Observables'])
@@ -98,7 +97,7 @@ Set(r) ==
   /\ IF IsPow2(nb)
      THEN \* accepted: properties replaced, shape clamped against MAX/binning, both buffers reallocated
        LET sx == ClampDim(r.sx, nb)  sy == ClampDim(r.sy, nb)  n == BufBytes(nb, sx, sy, r.t) IN
-       /\ (FIX_LOCK = 1 => LockFree)                 \* repaired: set waits for the render lock
+       /\ (FIX_LOCK = 1 => LockFree)                 \* repaired: set waits for the frame in flight
        /\ props' = [b |-> nb, t |-> r.t, ox |-> r.ox, oy |-> r.oy, sx |-> sx, sy |-> sy, ex |-> r.ex]
        /\ ish' = [w |-> sx, h |-> sy, t |-> r.t]
        /\ fsize' = n /\ rsize' = n
@@ -162,7 +161,7 @@ GetFrame(mode) ==
   /\ Record("F", <<mode, 0, 0, 0, 0, 0, 0>>)
 
 \* ---- streamer thread (buffer view only) -------------------------------------------------------------
-StCapture ==   \* compute_full_resolution_shape_and_offset (repaired: with the render lock taken)
+StCapture ==   \* compute_full_resolution_shape_and_offset (repaired: is_rendering := 1)
   /\ running /\ spc = "top"
   /\ cap' = [W |-> props.b * props.sx, H |-> props.b * props.sy, t |-> ish.t]
   /\ spc' = "captured" /\ replaced' = FALSE
